@@ -12,7 +12,7 @@ def classes(lines, n):
     return sorted(out)
 
 def run(chk):
-    r = standard_run(chk, PROFILE, 1200, 30000)
+    r = standard_run(chk, PROFILE, 3000, 40000)
     if r is None: return
     drv, impl, scns, ms, ds = r
     def judge(scn, i, dp, mp):
